@@ -45,7 +45,7 @@ Section Rank.
       assert (Hm : rank m < f) by lia.
       pose proof (IH rs h m Hc Hmc Hm) as Hne. pose proof (resolve_on_c f rs h m Hc) as Hc1.
       destruct (resolve_d f rs h m) as [rs1 [a|e|]]; cbn [fst snd] in *; [|discriminate|congruence].
-      destruct a; try discriminate. apply IHm; [exact Hc1|intros; apply Hr; right; assumption|exact Hb].
+      destruct a; try discriminate; (apply IHm; [exact Hc1|intros; apply Hr; right; assumption|exact Hb]).
     Qed.
 
     Lemma dep_no_fuel d h rs dp : on_c rs -> In d c -> rank d <= f -> In dp (reg_deps (ds_reg d)) ->
@@ -73,7 +73,7 @@ Section Rank.
           { induction ms as [|m ms IHm]; intros rs0 acc Hc0; cbn [group_loop]; [exact Hc0|].
             pose proof (resolve_on_c f rs0 h m Hc0) as Hc1.
             destruct (resolve_d f rs0 h m) as [rs1 [a|e|]]; cbn [fst] in *; try exact Hc1.
-            destruct a; try exact Hc1. apply IHm. exact Hc1. }
+            destruct a; try exact Hc1; (apply IHm; exact Hc1). }
           apply Hg. exact Hc.
     Qed.
 
